@@ -54,7 +54,9 @@ impl Scenario for PokClock {
                 // commitment secret x the prover drew (y = x, x+1, x-1, 2x) or at edge / limb-pattern values
                 p.set("challenge_kind", if x.chance(2, 3) { x.below(3) as i64 } else { x.range(3, 9) as i64 });
                 if class == "interactive-tamper" {
-                    p.faults.push(Step::new("relay", &[x.below(N_RELAY_I) as i64, x.below(1 << 16) as i64]));
+                    // a third of the runs: the jointly crafted pair (mode 16), otherwise one of the single-component modes
+                    let mode = if x.chance(1, 3) { 16 } else { x.below(N_RELAY_I) as i64 };
+                    p.faults.push(Step::new("relay", &[mode, x.below(1 << 16) as i64]));
                 }
                 if x.chance(1, 4) {
                     p.faults.push(Step::new("dup", &[K_PROOF as i64, 0]));
@@ -104,7 +106,7 @@ impl Scenario for PokClock {
     }
 }
 
-const N_RELAY_I: u64 = 16;
+const N_RELAY_I: u64 = 17;
 const N_RELAY_T: u64 = 26;
 
 struct World<'a> {
@@ -201,6 +203,26 @@ impl<'a> World<'a> {
                     (None, Some(t)) => { *t = t.wrapping_sub(1); label = "ts-minus-1"; }
                     _ => { label = "none"; }
                 }
+            }
+            16 if challenge.is_some() => {
+                // BOTH components crafted jointly from what a prover knows: u' = alpha*u + beta*H(m), v' = gamma*v + delta*sig
+                // with coefficients from {0, 1, -1, 2, y, -y, y+1, 1-y}; each stays at its honest value (1, 0, 1, 0) half
+                // of the time. Whether the pair is valid is decided by the reference equation.
+                let y = refimpl::scalar_from_be(challenge.unwrap()).unwrap_or(refimpl::scalar_from_u64(3));
+                let one = refimpl::scalar_from_u64(1);
+                let zero = refimpl::scalar_from_u64(0);
+                let set = [zero, one, -one, one + one, y, -y, y + one, one - y];
+                let mut xr = Xo::derive(self.plan.seed ^ salt as u64, &[0xA19]);
+                let mut pick = |honest: refimpl::RefScalar| if xr.chance(1, 2) { honest } else { set[xr.below(8) as usize] };
+                let (al, be, ga, de) = (pick(one), pick(zero), pick(one), pick(zero));
+                let dsts = self.rec.call(self.lib, self.g, Op::Dsts, &[]).ok().unwrap_or_default();
+                let b = refimpl::Bls::draft(sig_grp(self.g));
+                if let (Some(up), Some(vp), Some(sp), Some(dst)) = (u, v, self.sig_point(), dsts.get(f.tag as usize)) {
+                    let a = b.hash_msg(&msg, dst);
+                    f.u = up.mul(&al).add(&a.mul(&be)).to_bytes();
+                    f.v = vp.mul(&ga).add(&sp.mul(&de)).to_bytes();
+                }
+                label = "u-and-v-crafted-jointly";
             }
             16 => { f.ts = Some(0); label = "ts-zero"; }
             17 => { f.ts = Some(1u64 << 63); label = "ts-2^63"; }
@@ -397,6 +419,9 @@ impl<'a> App for World<'a> {
                             let related_valid = self.ref_accepts(&pb, &pk, &pm, c2.as_deref().unwrap_or(&ch));
                             if related_valid {
                                 self.rec.probe("altered-tuple-valid-by-the-equation");
+                                if label == "u-and-v-crafted-jointly" {
+                                    self.rec.expect("C10", "valid-crafted-pair-accepted", out.is_ok(), || format!("{} scheme={} | a pair that satisfies the verification equation (no identity component) was rejected: {:?}", label, sch, out));
+                                }
                             } else {
                                 self.rec.expect("C10", "altered-proof-rejected", !out.is_ok(), || format!("{} scheme={} | altered interactive proof accepted", label, sch));
                             }
